@@ -384,9 +384,14 @@ def run(ctx):
                     why = "the loop that rebuilds missing entries can be skipped as a whole (it is under a test of the cache)"
                     continue
                 lv = {x.id for x in walk_no_nested(lp_.ast.target) if isinstance(x, ast.Name)}
-                sorts = [cn for cn in cfg.nodes if cn.kind == "stmt" and lp_.ast in list(_anc(cn.ast)) and any(
-                    isinstance(c, ast.Call) and isinstance(c.func, ast.Attribute) and c.func.attr in ("_sort_listeners", SORTER) and c.args and isinstance(c.args[0], ast.Name) and c.args[0].id in lv
-                    for c in walk_no_nested(cn.ast))]
+                def rebuilds(c):
+                    if not (isinstance(c, ast.Call) and isinstance(c.func, ast.Attribute) and c.args and isinstance(c.args[0], ast.Name) and c.args[0].id in lv):
+                        return False
+                    if c.func.attr in ("_sort_listeners", SORTER):
+                        return True
+                    # a private helper that makes sure the entry of its parameter exists
+                    return isinstance(c.func.value, ast.Name) and c.func.value.id == "self" and any(t.name.startswith("_") and _helper_ensures(ctx, t) for t in ctx.cg.site_for(gl, c).targets)
+                sorts = [cn for cn in cfg.nodes if cn.kind == "stmt" and lp_.ast in list(_anc(cn.ast)) and any(rebuilds(c) for c in walk_no_nested(cn.ast))]
                 if not sorts:
                     why = "the loop over the store does not rebuild entries"
                     continue
